@@ -114,7 +114,11 @@ def classify(diags, fmap, genfile, unit, cfg):
         line = prim[0]['line_start'] if prim else 0
         tags = []
         for s in spans:
-            tags += fmap.tags_at(s['line_start'], s['line_end'])
+            # the failed clause is the primary span (post-conditions, invariants) or the secondary
+            # span labelled "failed precondition"; "at this exit" spans cover whole blocks
+            if s.get('is_primary') or 'failed' in (s.get('label') or ''):
+                if s['line_end'] - s['line_start'] <= 6:
+                    tags += fmap.tags_at(s['line_start'], s['line_end'])
         fn = fmap.fn[line - 1] if 0 < line <= len(fmap.fn) else None
         origin = fmap.origin[line - 1] if 0 < line <= len(fmap.origin) else None
         src = fmap.src[line - 1] if 0 < line <= len(fmap.src) else None
@@ -130,7 +134,11 @@ def classify(diags, fmap, genfile, unit, cfg):
         verification_msgs = ('postcondition not satisfied', 'precondition not satisfied', 'invariant not satisfied',
                              'assertion failed', 'possible arithmetic', 'decreases not satisfied', 'possible division by zero',
                              'loop invariant', 'might not', 'possible bit shift', 'unreachable')
-        if RLIMIT_PAT.search(msg):
+        if d.get('code'):
+            # rustc error code (E0277 ...): the extracted text is outside the Verus subset
+            rec['kind'] = 'tool'
+            undec.append(rec)
+        elif RLIMIT_PAT.search(msg):
             rec['kind'] = 'rlimit'
             undec.append(rec)
         elif any(v in msg for v in verification_msgs) or 'failed' in msg or 'not satisfied' in msg:
